@@ -6,7 +6,9 @@ from ..core import Check
 
 A, B = ('str', 'a'), ('str', 'b')
 ELEMS = [A, ('seq', A, B), ('choice', A, ('str', 'ab')), ('ref', 'El')]
-SEPS = [('str', ','), ('seq', ('str', ','), ('str', ';')), ('choice', ('str', ','), ('str', ',;'))]
+SEPS = [('str', ','), ('seq', ('str', ','), ('str', ';')), ('choice', ('str', ','), ('str', ',;')),
+        # separators that may match nothing (their value is then falsy: None / '')
+        ('opt', ('str', ',')), ('re', ',?')]
 DIGIT = ('apply', ('re', '\\d'), ('py', 'int'))
 REST = ('re', '[ab,;0-9]*')
 AUX = [('El', ('rule', None, ('seq', A, ('opt', B))))]
@@ -49,6 +51,21 @@ def seps(el):
             yield ('sep', el, sp, disc, trail, empty, req)
 
 
+BIG = [(2, 10), (9, 10), (3, 12), (10, 10), (10, None), (None, 10), (11, 12), (0, 10), (1, 100)]
+BIG_INPUTS = ['a' * k for k in range(0, 14)] + ['a' * k + 'b' for k in range(0, 14)] + ['a' * 101]
+
+
+def big_bound_jobs():
+    """bounds of more than one digit (operator and constructor spelling), on runs of 0..13 (and 101) elements"""
+    for m, n in BIG:
+        core = ('rep', A, m, n)
+        for cn, ctx in (('bare', core), ('choice', ('choice', core, ('re', 'a*b'))), ('seq', ('seq', core, ('opt', B)))):
+            for alt in (None, (True,) * 4):
+                rules = [('start', ('rule', None, ctx))] + AUX
+                mods = [(tuple(rules), (), 'start', None, (), False, 'named', None)]
+                yield {'mods': mods, 'inputs': BIG_INPUTS, 'mode': 'simple', 'tag': 'rep-big', 'alt': alt}
+
+
 def contexts(x):
     yield 'bare', x
     yield 'choice1', ('choice', x, ('str', 'ab'))
@@ -89,6 +106,7 @@ def digit_inputs(name):
 
 
 def jobs(tier):
+    yield from big_bound_jobs()
     for tag, e, extra, inp, alt in universe(tier):
         rules = [('start', ('rule', None, e))] + AUX + list(extra)
         mods = [(tuple(rules), (), 'start', None, (), False, 'named', None)]
@@ -107,9 +125,9 @@ def init():
 
 def run(tier, seed):
     chk = Check('C03', tier, seed)
-    chk.rule = ('4 element kinds x {all static bounds 0<=m<=n<=3 in operator and constructor spelling, '
+    chk.rule = ('4 element kinds x {all static bounds 0<=m<=n<=3 and 9 multi-digit bound pairs in operator and constructor spelling, '
                 'data-dependent bounds from let / template parameter / class field / inline Python, '
-                'all 12 Sep option vectors x 3 separators} x 8 enclosing contexts x all inputs over '
+                'all 12 Sep option vectors x 5 separators (two of them nullable)} x 8 enclosing contexts x all inputs over '
                 '{a,b,",",";"} up to the length bound (digit prefixes 0..3 for data-dependent bounds); '
                 'non-trivial = the model run needed a restore (bound reached with input left, trailing '
                 'separator left unconsumed, list failed after consuming)')
